@@ -180,6 +180,21 @@ def run_stream(ctx, dec, msgs, stream, seps, spec_base, probe=False):
             check_yields(ctx, got, want, stream, cap, spec, 'filter/' + mode + ('/hostile' if spec_base.get('hostile') else ''))
 
 
+    # a named stream: filters may refer to the documented variable PBK_FILENAME (the file_path the scan was given)
+    for expr, want in (('PBK_FILENAME == "stream-a.bufr"', want_all), ('PBK_FILENAME != "stream-a.bufr"', []),
+                       ('PBK_FILENAME.endswith(".bufr") and ${%edition} >= 2', want_all)):
+        for info_only in (False, True):
+            mode = 'info-only' if info_only else 'full'
+            spec = dict(spec_base, mode=mode, filter=expr, file_path='stream-a.bufr', stream_hex=stream.hex(), n_messages=len(msgs))
+            ctx.evaluated((stream.hex(), mode, expr), nontrivial)
+            ctx.count('filtered_streams_by_file_name')
+            try:
+                got = collect(generate_bufr_message(dec, stream, info_only=info_only, filter_expr=expr, file_path='stream-a.bufr'), cap)
+            except Exception as e:
+                ctx.violate('filter-scan-raises:%s/%s/file-name' % (type(e).__name__, mode), 'scanning a named stream with filter %r raised %s: %s'
+                            % (expr, type(e).__name__, str(e)[:120]), spec, exc=e)
+                continue
+            check_yields(ctx, got, want, stream, cap, spec, 'filter/file-name/' + mode)
     # non-default options that must not change what a stream of valid messages yields
     OPTS = [{}, dict(ignore_value_expectation=True), dict(wire_template_data=False), dict(continue_on_error=True),
             dict(ignore_value_expectation=True, wire_template_data=False), dict(ignore_value_expectation=True, continue_on_error=True)]
